@@ -115,7 +115,7 @@ def run(ctx, rep):
                             "lines, in file order (a sort or de-duplication before the order guard hides reordered or duplicated "
                             "tempo lines); every kind is folded datum by datum with its predecessor", floor=4)
     from .wiring import check_all_sections, check_from_file_wiring
-    check_all_sections(ctx, rw)
+    check_all_sections(ctx, rw, strict="bpm")
     check_from_file_wiring(ctx, rw)
     T.check_folds(rw)
     rr = rep.rule("R.reach", "each validator is reached from Chart.from_file on every path of its caller and its ValueError "
